@@ -21,7 +21,7 @@ PROP = dict(
     units=[
         U("mergeexh", ".", "^TestVerifC11_MergeExhaustive$", 0, 0, sq=1, sth=1, rapid=False),
         U("mergernd", ".", "^TestVerifC11_MergeRandom$", 1500, 60000, sq=3, sth=8),
-        U("e2e2", "./server", "^TestVerifC11_E2E2$", 30, 450, sq=2, sth=3, timeout={"quick": 400, "thorough": 1500}),
-        U("e2e3", "./server", "^TestVerifC11_E2E3$", 36, 450, sq=2, sth=3, timeout={"quick": 400, "thorough": 1500}),
+        U("e2e2", "./server", "^TestVerifC11_E2E2$", 30, 800, sq=2, sth=4, timeout={"quick": 400, "thorough": 1500}),
+        U("e2e3", "./server", "^TestVerifC11_E2E3$", 36, 800, sq=2, sth=4, timeout={"quick": 400, "thorough": 1500}),
     ],
 )
